@@ -11,39 +11,52 @@ MANIFEST = dict(
   text=("Theorems (Props/C16.lean, exact arithmetic, all sizes): (1) on the nu/M tables regenerated from CSvmTrainer::setupMcParameters{WWCS,ATMATS,ADMLLW,MMR} "
         "on every run (T2, translate/mcsvm_tables.py): M_is_gram_of_nu for ALL class counts c>=2 and every family (M = <nu,nu'>, minus the mean for the "
         "sum-to-zero families; WW/CS nu sum to zero), rows well-formed, loops write exactly `height` rows and never exceed the reserved capacity; "
-        "(2) on the hand-written model of QpMcBoxDecomp (Model/McSmo.lean): mc_tables_inv (example/variable tables mutually inverse, active split consistent), "
-        "mc_box_inv (0<=alpha<=C), mc_grad_inv (gradient of active variables = lin - (M(x)K) alpha) hold initially and are preserved by EVERY operation "
+        "(2) QpMcBoxDecomp (Model/McSmo.lean): mc_tables_inv, mc_box_inv (0<=alpha<=C), mc_grad_inv (gradient of active variables = lin - (M(x)K) alpha) hold initially and are preserved by EVERY operation "
         "(updateSMO incl. the 1-D/2-D box sub-solvers, gradientUpdate, deactivateVariable, deactivateExample, shrink, unshrink, addDeltaLinear), hence after every valid "
-        "finite history (induction over op lists), instantiated for the generated tables of every family and c>=2 (their symmetry is derived from M_is_gram_of_nu); "
-        "after unshrink the whole gradient is exact; (3) decision logic generated from CSvmTrainer::train / LinearCSvmTrainer::train: two_class_dispatch "
-        "(every formulation takes the binary path on two-class data), ova_is_binary_per_class (OVA never reaches the multi-class solvers), every other formulation uses one of the four table families; "
-        "(4) QpBoxLinear coordinate step (Model/McLinear.lean): linear_w_inv (w = sum alpha_i y_i x_i) and linear_box_inv along EVERY schedule, linear_step_gain_nonneg_partial; "
-        "(5) configuration invariance in exact arithmetic: mc_kkt_eps_near_optimal / two_stopped_configurations_close (any two feasible eps-KKT points of a concave box QP have "
-        "objectives within eps*N*C), stopped_state_near_optimal (link to the model through mc_grad_inv), mc_objective_recomputed (functionValue() is the dual objective), generated_Q_psd (Q = M(x)K is PSD for every family when K is a Gram matrix of explicit "
-        "features: Kronecker step via M_is_gram_of_nu), perm_examples_equivariant (reordering the examples renumbers the same dual). Tie to the C++ on every run: entry-wise table dumps c=2..8 (bit patterns and exact "
-        "rationals); adversarial op sequences on the real QpMcBoxDecomp (protected members via a subclass, synthetic PSD integer/dyadic kernel matrices) compared line by line with the "
-        "Float instance of the model bit for bit and, whenever FE_INEXACT stayed clear, with the Rat instance exactly; one-epoch sweeps of the real QpBoxLinear along its observed "
-        "random schedule against the model; trainer level (oracle only): all 9 formulations x offset x shrinking x cache sizes x example permutations x batch sizes x 3 kernels on integer "
-        "data with 2-5 classes, decision values compared across configurations within the bound derived from the solver accuracy, plus box/simplex constraints, independently recomputed "
-        "gradient/KKT/objective, alpha->decision-function map, two-class = binary trainer bit for bit, OVA = per-class binary bit for bit, linear kernel vs dedicated linear solver; ASan/UBSan."),
-  note=TRUST + "PARTIAL. Proved only for the model: the decomposition model covers QpMcBoxDecomp (box formulations WW, LLW, ATS, reinforced); QpMcSimplexDecomp (CS, ATM, ADM, MMR: "
-       "mc_simplex_inv), BiasSolver/BiasSolverSimplex, QpSolver::solve's loop and the multi-class linear solvers QpMcLinear* are NOT modelled — they are "
-       "covered by the trainer-level oracles only; QpMcBoxDecomp::selectWorkingSet (first and second order, including the call of maximumGainQuadratic2D with shifted arguments and the "
-       "single-cursor walk over the sparse row) is modelled and tied bit for bit but no theorem is stated about it (simplex constraint is checked there up to 1e-12 relative slack: the code itself exceeds C by an ulp). linear_step_gain_nonneg is partial "
-       "(hypothesis |x_i|^2+reg>0; the zero-vector case differs between IEEE inf and Rat division). Configuration invariance is a theorem about exact arithmetic; PSD of Q is proved for kernel matrices given as Gram matrices of explicit features "
-       "(linear/polynomial kernels), a hypothesis otherwise; that the real solver reaches the accuracy, and all floating-point effects, are exercised by the correspondence only; "
-       "the decision-value tolerance 2*sqrt(2*eps*n*P*C)*sqrt(k(x,x)) is derived on paper from the proved objective bound. uniform_sweep_visits_all, linear_stop_weak and primal_dual_gap of the design are not proved; perm_examples_equivariant is proved at the level of Q and lin "
-       "(not composed with the optimality bound into one statement). For the binary machine (and each one-versus-all machine) with offset a constant shift of the decision values between configurations is tolerated "
-       "(the optimal offset is an interval when no support vector is free; C07 owns bias_in_kkt_interval). The translator is trusted to render the C++ subset faithfully (mitigated by the dumps and by comparing the generated decision logic with the path "
-       "the real trainer takes). Findings: F-C16-1 (label(i) after shrinking; patch proposed), F-C16-4 (QpMcSimplexDecomp::selectWorkingSet stalls; patch proposed), "
-       "F-C16-2 (multi-class offset solver is trajectory dependent; no validated patch) — see findings_proposed/C16.md; on a tree without the patches the check reports them as violations by design.",
-  technique="Lean 4 invariant proofs by induction over operation histories on a hand-written solver model + source-regenerated tables and decision logic (T2) + differential correspondence with the C++ "
+        "finite history, instantiated for the generated tables of every family and c>=2; "
+        "(3) WHOLE RUNS of QpSolver::solve (Model/McSolve.lean: selectWorkingSet first+second order -> updateSMO -> periodic shrink with the unshrink-at-10*eps rule -> stopping rule with "
+        "unshrink + re-check, iteration limit, wrapping shrink counter): solve_run_invariants (every reachable state satisfies all invariants, any accuracy / iteration limit / start state, shrinking on or off), "
+        "solve_never_stuck_box (updateSMO is only ever called with active variables), solve_stop_is_kkt (QpAccuracyReached => all variables active and the stored = true gradient is eps-KKT), "
+        "solve_generated_near_optimal (stop => KKT(eps) => objective within eps*P*n*C of every feasible point of THE dual in its original numbering: the operations of the loop only renumber Q and lin, Renumbered; "
+        "PSD of Q = M(x)K from M_is_gram_of_nu + Kronecker lemma for Gram kernel matrices), solve_generated_configuration_invariant (two runs, shrinking on/off, any limits, both stopped: dual objectives within eps*P*n*C), "
+        "decision_map_quadratic (delta^T Q delta = squared norm of the centred decision coefficients Sum_p nu~(y_i,p,k) delta(i,p) the trainer writes) and stopped_configurations_close_decision "
+        "(two eps-KKT points: that squared norm <= 2*eps*P*n*C, i.e. |Delta f(x)| <= sqrt(2 eps P n C k(x,x)), half the tolerance of the trainer-level comparison); "
+        "(4) QpMcSimplexDecomp (CS, ATM, ADM, MMR; Model/McSimplex.lean: updateSMO in its three cases incl. solveQuadratic2DTriangle, updateVarsum with its re-computation/snapping rule, deactivateVariable with automatic "
+        "deactivateExample, shrink cases 1/2, unshrink, selectWorkingSet/maxGainBox/maxGainSimplex, checkKKT, solve loop): simplex_run_invariants = tables + gradient invariants + mc_simplex_inv "
+        "(alpha>=0, 0<=varsum<=C, Sum_p alpha_ip <= C + 1e-14: the constraint up to the slack of the code's own snapping, which the real code does use) for every state reached by QpSolver::solve and by every single operation "
+        "(simplex_ops_preserve; the off-by-one branch of shrink is proved unreachable), simplex_stop_is_kkt; "
+        "(5) bias loop as far as it is logic (Model/McBias.lean): bias_loop_consistent — after ANY sequence of inner solves and performBiasUpdate steps all invariants hold and the linear part, read through the renumbered tables, is "
+        "linear(i,p) - nu-row . (accumulated bias) (LinInv through every operation); "
+        "(6) decision logic generated from CSvmTrainer::train / LinearCSvmTrainer::train: two_class_dispatch, ova_is_binary_per_class, every other formulation uses one of the four table families; "
+        "(7) dedicated linear solvers: QpBoxLinear coordinate step (linear_w_inv, linear_box_inv along EVERY schedule, linear_step_gain_nonneg_partial) and QpMcLinear{WW,LLW,ATS,MMR,Reinforced} per-example step "
+        "(Model/McLinearMc.lean: calcGradient, solveSub with its inner SMO loop, updateWeightVectors): mc_linear_invariants = w is the formulation's linear map of alpha, 0<=alpha<=C, returned gain >= 0, along EVERY schedule; "
+        "(8) configuration invariance in exact arithmetic: mc_kkt_eps_near_optimal / two_stopped_configurations_close, stopped_state_near_optimal, mc_objective_recomputed, generated_Q_psd, perm_examples_equivariant. "
+        "Tie to the C++ on every run (both tiers): entry-wise table dumps c=2..8; adversarial op sequences INCLUDING whole solve runs on the real QpMcBoxDecomp AND the real QpMcSimplexDecomp (protected members via subclasses, "
+        "QpSolver<Probe>::solve, BiasSolver[Simplex]::performBiasUpdate via an access override; synthetic PSD integer/dyadic kernel matrices) compared line by line with the Float instance of the models bit for bit (complete state incl. varsum, "
+        "iterations, stop type, reported accuracy) and, whenever FE_INEXACT stayed clear, with the Rat instance exactly, with independent oracles (tables, box/simplex, recomputed gradient, varsum drift, stopping rule); per-example steps of all "
+        "eight real QpMcLinear classes along arbitrary schedules against the model bit for bit with oracles (w consistency, feasibility, gain = change of the dual objective); one-epoch sweeps of the real QpBoxLinear; trainer level (oracle only): "
+        "all 9 formulations x offset x shrinking x cache sizes x example permutations x batch sizes x 3 kernels on integer data with 2-5 classes, decision values compared across configurations within the derived bound, box/simplex constraints, "
+        "recomputed gradient/KKT/objective, alpha->decision-function map, two-class = binary trainer bit for bit, OVA = per-class binary bit for bit, linear kernel vs dedicated linear solver, and re-use of one model object "
+        "(k-class then two-class training and vice versa must equal a fresh model); ASan/UBSan."),
+  note=TRUST + "PARTIAL. Modelled by hand, not translated: McSmo/McSolve/McSimplex/McBias/McLinear/McLinearMc (tied bit for bit on every run). NOT proved: (a) the objective-gap bound for the SIMPLEX-constrained dual "
+       "(simplex_stop_is_kkt gives KKT(eps) in terms of the tracked varsum; the bound would carry an extra term 1e-14*|gradient| from the snapping) and Renumbered/LinInv for the simplex loop; "
+       "(b) BiasSolver::solve's Rprop rule, its two data-dependent loops and their termination (bias_loop_consistent quantifies over every sequence of steps instead; the whole loop is exercised at trainer level only — F-C16-2, F-C16-4 live there); "
+       "(c) QpMcLinear{CS,ATM,ADM} theorems (model + bit-exact tie + oracles only; F-C16-L1 lives there), the ACF/shrinking epoch schedule and the epoch-level stopping rule of QpMcLinear::solve/QpBoxLinear::solve "
+       "(theorems quantify over every schedule; uniform_sweep_visits_all, linear_stop_weak, primal_dual_gap of the design are not proved; 'same primal objective as the kernel solver' is a trainer-level oracle); "
+       "(d) no theorem about WHICH working set is selected beyond validity (the second-order rule incl. the shifted arguments of maximumGainQuadratic2D is tied bit for bit) and none about convergence (that accuracy IS reached); "
+       "(e) the time limit of QpSolver::solve is not modelled. linear_step_gain_nonneg is partial (|x_i|^2+reg>0). The driver re-tabulates the state vectors between model operations and between passes of the solve loop "
+       "(identity on the valid index ranges; the loop itself is the model's solveBody). Configuration invariance is a theorem about exact arithmetic over a kernel matrix given as a function (C09 owns the cache); PSD of Q is proved for Gram "
+       "matrices of explicit features, a hypothesis otherwise; floating-point effects are covered by the correspondence only. For the binary machine (and each one-versus-all machine) with offset a constant shift of the decision values "
+       "between configurations is tolerated (C07 owns bias_in_kkt_interval). Findings: F-C16-L1 (QpMcLinear{CS,ADM,ATM} two-variable step: gain formula / ATM gradient update; validated patch proposed), F-C16-2 "
+       "(multi-class offset solver is trajectory dependent), F-C16-4 (BiasSolverSimplex after an iteration-limited inner solve) — see findings_proposed/C16.md; listed in known_findings.json.",
+  technique="Lean 4 invariant proofs by induction over operation histories and over whole runs of the modelled solver loops (hand-written models) + source-regenerated tables and decision logic (T2) + differential correspondence with the C++ "
             "(exact / bit / toleranced modes, ASan/UBSan) + independent trainer-level property oracles",
-  design="§6 C16")
+  design="§6 C16, §14 C16")
 FINISH = dict(level="proof",
-              rule="cases = (a) one table dump per generated table and c=2..8, (b) op histories on QpMcBoxDecomp from one SplitMix64 stream (family, c=2..5, n=2..6, C, linear part, PSD kernel matrix, "
-                   "ops smo/deactvar/killex/deactex/shrink/unshrink/adddelta/label/select1), (c) QpBoxLinear sweep histories, (d) trainer runs = (data set, formulation, offset, configuration); "
-                   "distinct = distinct op text; a box/linear history is non-trivial if it has more than 3 ops")
+              rule="cases = (a) one table dump per generated table and c=2..8, (b) op histories on QpMcBoxDecomp and (c) on QpMcSimplexDecomp from SplitMix64 streams (family, c=2..5, n=2..6, C, linear part, PSD kernel matrix, "
+                   "ops smo/deactvar/killex/deactex/shrink/unshrink/adddelta/biasupd/label/select/kkt/solve(eps,maxIter), one case in three ends with a full solve run), (d) per-example step histories of the eight QpMcLinear classes, "
+                   "(e) QpBoxLinear sweep histories, (f) trainer runs = (data set, formulation, offset, configuration) and model re-use runs; "
+                   "distinct = distinct op text; a box/simplex history is non-trivial if it has more than 3 ops")
 LAKE_TARGETS = ["SharkVerif.Props.C16", "drv_c16"]
 SRC = ["src/Core/Random.cpp"]
 TABLES = ["WWCS_nu", "WWCS_M", "ATMATS_nu", "ATMATS_M", "ADMLLW_nu", "ADMLLW_M", "MMR_nu", "MMR_M"]
@@ -653,8 +666,9 @@ def trainer_sweeps(ctx, exe, nds, disp=None, corpus=()):
 def run(ctx):
     ctx.trusted += ["translator translate/mcsvm_tables.py (C++ subset parser; every generated table is also compared with the real arrays, "
                     "the generated decision logic with the path the real trainer takes)",
-                    "correspondence harnesses harness/c16.cpp, harness/c16s.cpp + generators/tolerances in checks/c16.py",
-                    "hand-written models Model/McSmo.lean (QpMcBoxDecomp.h, AnalyticProblems.h) and Model/McLinear.lean (QpBoxLinear.h): modelled, not translated",
+                    "correspondence harnesses harness/c16.cpp, c16s.cpp, c16x.cpp, c16l.cpp + generators/tolerances in checks/c16.py, checks/c16_mclin.py",
+                    "hand-written models Model/McSmo.lean, McSolve.lean (QpMcBoxDecomp.h, QpSolver.h, AnalyticProblems.h), McSimplex.lean (QpMcSimplexDecomp.h), McBias.lean, McLinear.lean (QpBoxLinear.h), "
+                    "McLinearMc.lean (QpMcLinear.h): modelled, not translated; the drivers re-tabulate state vectors between operations / loop passes",
                     "ASan/UBSan runtime for the real code's memory safety (not a theorem)"]
     ctx.assumptions += ["exact arithmetic (Rat) in all theorems; the Float instance of the same definitions is what is compared bit for bit with the C++",
                         "kernel matrix symmetric (QSym) for mc_grad_inv; operations respect the C++ preconditions (Op.valid)",
@@ -719,8 +733,10 @@ def run(ctx):
     # trainer level
     tcorp = [c for c in corpus if c[0].startswith("data")]
     trainer_sweeps(ctx, exe, 50 if ctx.quick else 150, dispatch_table(drv), tcorp)
-    ctx.sample({"theorems": ["M_is_gram_of_nu", "mc_tables_inv", "mc_box_inv", "mc_grad_inv", "two_class_dispatch",
-                             "ova_is_binary_per_class", "linear_w_inv", "linear_box_inv", "linear_step_gain_nonneg_partial"]})
+    ctx.sample({"theorems": ["M_is_gram_of_nu", "mc_tables_inv", "mc_box_inv", "mc_grad_inv", "solve_run_invariants", "solve_never_stuck_box",
+                             "solve_generated_near_optimal", "solve_generated_configuration_invariant", "simplex_run_invariants", "simplex_stop_is_kkt",
+                             "bias_loop_consistent", "decision_map_quadratic", "stopped_configurations_close_decision", "mc_linear_invariants",
+                             "two_class_dispatch", "ova_is_binary_per_class", "linear_w_inv", "linear_box_inv", "linear_step_gain_nonneg_partial"]})
 
 
 def replay_train(ctx, exe, ops, report=False):
